@@ -18,6 +18,7 @@ package rprop
 
 /* -------------------------------------------------------------------------- */
 
+import "github.com/pbenner/autodiff/verifhook"
 import   "fmt"
 import   "math"
 
@@ -98,6 +99,7 @@ func rprop(f func(ConstVector) (MagicScalar, error), x0 ConstVector, step_init f
     return x1, fmt.Errorf("gradient is NaN for initial value: %v", x1)
   }
   for i := 0; i < maxIterations.Value; i++ {
+    verifhook.Tick("rprop.iter")
     for i := 0; i < x1.Dim(); i++ {
       gradient_old[i] = gradient_new[i]
     }
@@ -126,6 +128,7 @@ func rprop(f func(ConstVector) (MagicScalar, error), x0 ConstVector, step_init f
       }
     }
     for {
+      verifhook.Tick("rprop.backtrack")
       // update x
       for i := 0; i < x1.Dim(); i++ {
         if gradient_new[i] != 0.0 {
